@@ -144,3 +144,50 @@ def make_cond(p):
         )
         return c, {"u": J(p["u"])}
     raise ValueError(kind)
+
+
+# ----------------------------------------------------------------------------- approximate conditionals
+def make_feature(p):
+    from gaussian_toolbox import approximate_conditional as ac
+
+    if p["kind"] == "lrbf":
+        return ac.LRBFGaussianConditional(M=J(p["M"]), b=J(p["b"]), mu=J(p["mu"]), length_scale=J(p["length_scale"]), Sigma=J(p["Sigma"]))
+    return ac.LSEMGaussianConditional(M=J(p["M"]), b=J(p["b"]), W=J(p["W"]), Sigma=J(p["Sigma"]))
+
+
+def feature_np(p):
+    """Returns (M, b, Sigma, kernel) with kernel(X[N,Dx]) -> [N,Dk] as DOCUMENTED:
+    LRBF k_i = exp(-sum_d ((x_d - s_id)/l_id)^2 / 2);  LSEM k_i = exp(-(w_i'x + w_i0)^2 / 2)."""
+    M, b, S = N(p["M"])[0], N(p["b"])[0], N(p["Sigma"])[0]
+    if p["kind"] == "lrbf":
+        c, l = N(p["mu"]), N(p["length_scale"])
+
+        def k(X):
+            return np.exp(-0.5 * np.sum(((X[:, None, :] - c[None]) / l[None]) ** 2, -1))
+    else:
+        W = N(p["W"])
+
+        def k(X):
+            return np.exp(-0.5 * (X @ W[:, 1:].T + W[:, 0][None]) ** 2)
+    return M, b, S, k
+
+
+HET_CLASSES = {"exp": "HeteroscedasticExpConditional", "cosh": "HeteroscedasticCoshM1Conditional",
+               "heaviside": "HeteroscedasticHeavisideConditional", "relu": "HeteroscedasticReLUConditional"}
+
+
+def make_het(p):
+    from gaussian_toolbox import approximate_conditional as ac
+
+    cls = getattr(ac, HET_CLASSES[p["kind"]])
+    return cls(M=J(p["M"]), b=J(p["b"]), A=J(p["A"]), W=J(p["W"]))
+
+
+def het_link(kind, h):
+    if kind == "exp":
+        return np.exp(h)
+    if kind == "cosh":
+        return np.cosh(h) - 1.0
+    if kind == "heaviside":
+        return (h >= 0).astype(float)
+    return np.maximum(h, 0.0)
